@@ -249,7 +249,10 @@ func (m *reloadManager) installPreparedDNSHandoffHooks(log *logrus.Logger, curre
 func (m *reloadManager) finishReloadFailure() {
 	m.reloading.Store(false)
 	m.reloadActive.Store(false)
-	clearReloadPending(&m.reloadPending)
+	// A failed full reload may already have started retiring the previous
+	// generation; keep refusing new requests until that retirement is over,
+	// exactly as after a successful reload (nil channel: release at once).
+	releaseReloadPendingAfterRetirement(&m.reloadPending, m.takePendingRetirementDone())
 }
 
 func (m *reloadManager) finishReloadSuccess() {
